@@ -642,6 +642,62 @@ def _elif_tests(st):
     return out
 
 
+PURE_NAMES = set()          # set by the index before normalisation: repo functions that are trivial getters under every definition of the name
+_PURE_BUILTINS = {"len", "isinstance", "min", "max", "abs", "bool"}
+
+
+def _pure_call(x):
+    f = x.func
+    name = f.id if isinstance(f, ast.Name) else f.attr if isinstance(f, ast.Attribute) else None
+    if name is None or x.keywords:
+        return False
+    if isinstance(f, ast.Name):
+        return name in _PURE_BUILTINS
+    return name in PURE_NAMES and not x.args
+
+
+def _impure(expr):
+    """does evaluating expr call anything that is not a trivial getter / pure builtin?"""
+    return any(isinstance(x, ast.Await) or (isinstance(x, ast.Call) and not _pure_call(x)) for x in ast.walk(expr))
+
+
+def _calm_until_last(stmt, uses):
+    """nothing impure is evaluated in `stmt` before the last of `uses` (source position; calls that contain a use run after it)"""
+    for c in ast.walk(stmt):
+        for ch in ast.iter_child_nodes(c):
+            ch._up = c
+    anc = set()
+    for u in uses:
+        cur = u
+        while cur is not stmt and hasattr(cur, "_up"):
+            cur = cur._up
+            anc.add(id(cur))
+    last = max((getattr(u, "lineno", 0), getattr(u, "col_offset", 0)) for u in uses)
+    for x in ast.walk(stmt):
+        if (isinstance(x, ast.Await) or (isinstance(x, ast.Call) and not _pure_call(x))) and id(x) not in anc:
+            if (getattr(x, "lineno", 0), getattr(x, "col_offset", 0)) < last:
+                return False
+    return True
+
+
+def _evaluated_first(stmt, use):
+    """no call / await of `stmt` is evaluated before the expression `use` (approximated by source position; calls that CONTAIN the use run after it)"""
+    anc = set()
+    for x in ast.walk(stmt):
+        for c in ast.iter_child_nodes(x):
+            c._up = x
+    cur = use
+    while cur is not stmt and hasattr(cur, "_up"):
+        cur = cur._up
+        anc.add(id(cur))
+    pos = (getattr(use, "lineno", 0), getattr(use, "col_offset", 0))
+    for x in ast.walk(stmt):
+        if isinstance(x, (ast.Call, ast.Await)) and id(x) not in anc and x is not use:
+            if (getattr(x, "lineno", 0), getattr(x, "col_offset", 0)) < pos:
+                return False
+    return True
+
+
 def inline_temporaries(fn, ref_names, keep=()):
     """inline locals that the reference unit does not have; returns the number of temporaries removed"""
     removed = 0
@@ -694,8 +750,13 @@ def inline_temporaries(fn, ref_names, keep=()):
                 ok = False
                 in_next = [u for u in uses if any(u is x for x in ast.walk(nxt))]
                 calm = not any(isinstance(x, (ast.Await, ast.For, ast.AsyncFor, ast.While, ast.Yield, ast.YieldFrom)) or isinstance(x, _SCOPES) for x in ast.walk(nxt))
-                if len(in_next) == len(uses) and calm and not any(isinstance(x, ast.Await) for x in ast.walk(st.value)):
-                    ok = True                         # read (possibly more than once) only inside the directly following, loop- and await-free statement
+                has_call = any(isinstance(x, (ast.Call, ast.Await)) for x in ast.walk(st.value))
+                if len(in_next) == len(uses) and calm and not any(isinstance(x, ast.Await) for x in ast.walk(st.value)) and \
+                        (not has_call or (len(uses) == 1 and _evaluated_first(nxt, uses[0])) or (not _impure(st.value) and _calm_until_last(nxt, uses))):
+                    # read only inside the directly following, loop- and await-free statement: any number of reads for a call-free value; a value that
+                    # calls something is evaluated once and in its place — one read, and nothing else is called before it in that statement; a value that
+                    # only calls trivial getters / pure builtins may be read several times when nothing impure runs before the last read
+                    ok = True
                 elif len(in_next_header) == len(uses) and (len(uses) == 1 or _simple_value(st.value) or not any(isinstance(x, (ast.Call, ast.Await)) for x in ast.walk(st.value))):
                     ok = True
                 elif ladder and len(ladder) == len(uses) and not any(isinstance(x, (ast.Call, ast.Await)) for x in ast.walk(st.value)):
